@@ -399,6 +399,23 @@ var (
 	c7reEmbedScalar   = regexp.MustCompile(`(?m)^\s*(string|int|bytes|bool|float|number|_|"[^"]*"|-?[0-9][0-9.]*)\s*$`)
 )
 
+// c7predeclCaptured: the output has an unquoted field label named like a predeclared identifier
+// AND uses that name as a bare identifier elsewhere (a reference the label may capture; after the
+// exporter marks such references as predeclared they are printed `__name`).
+func c7predeclCaptured(out string) bool {
+	for _, m := range c7rePredeclLabel.FindAllStringSubmatch(out, -1) {
+		name := m[2]
+		re := regexp.MustCompile(`(^|[^A-Za-z0-9_$#."])` + regexp.QuoteMeta(name) + `($|[^A-Za-z0-9_$?!:(]|[?!]?[^:A-Za-z0-9_$])`)
+		if name == "len" || name == "close" || name == "and" || name == "or" || name == "div" || name == "mod" || name == "quo" || name == "rem" || name == "matchN" || name == "matchIf" || name == "error" {
+			re = regexp.MustCompile(`(^|[^A-Za-z0-9_$#."])` + regexp.QuoteMeta(name) + `\(`)
+		}
+		if re.MatchString(out) {
+			return true
+		}
+	}
+	return false
+}
+
 // c7sanitizeLet: the output holds `let NAME_<hex> = …NAME` — the renaming astutil.Sanitize /
 // the exporter introduce for a reference they consider shadowed.
 func c7sanitizeLet(out string) bool {
@@ -470,7 +487,7 @@ func c7classOf(pf c7profile, sub bool, path string, rt c7rt, src string) string 
 	if kind == "noparse" && c7reKeywordTop.MatchString(out) {
 		return "keyword-label-import-or-package-unquoted-at-file-level"
 	}
-	if c7rePredeclLabel.MatchString(out) || (k5 == "internal-error" && strings.Contains(rt.detail, "refers to field against which it would be matched") && c7reQuotedPredecl.MatchString(src)) {
+	if c7predeclCaptured(out) || (k5 == "internal-error" && strings.Contains(rt.detail, "refers to field against which it would be matched") && c7reQuotedPredecl.MatchString(src)) {
 		return "unquoted-label-shadows-predeclared-identifier"
 	}
 	if (strings.Contains(out, "] & {}") || strings.Contains(out, ") & {}")) && c7reLet.MatchString(out) && k5 != "unresolved" && k5 != "noparse" {
